@@ -53,6 +53,9 @@ type Frame struct {
 	loops      map[*ssa.BasicBlock]*loopInfo
 	debugRef   map[string][]*ssa.DebugRef
 	mutSet     map[ssa.Value]bool
+	// lock protecting the contents of maps loaded from guarded fields
+	lastGuard *guardTag
+	mapGuards map[ssa.Value]*guardTag
 	curLoopHdr *ssa.BasicBlock
 	evalBlock  *ssa.BasicBlock // block at which a loop assert is evaluated (name resolution)
 	useHead    bool            // resolve loop-carried names to their values at the loop head
@@ -504,6 +507,7 @@ func (fr *Frame) enterLoop(li *loopInfo, edges []edge) (*State, string) {
 	}
 	fr.autoInvariants(li, entryPhi)
 	fr.autoFrameInvariants(li)
+	fr.autoSectInvariant(li, pre)
 	invs := fr.invariants(li)
 	// 1. invariant holds on entry
 	for p, v := range entryPhi {
@@ -595,6 +599,33 @@ func (fr *Frame) autoFrameInvariants(li *loopInfo) {
 				return fx.frameGoalQ(key, fx.allowed[key], st.get(fx, key), fx.entryState.get(fx, key), alloc0)
 			}})
 	}
+}
+
+// autoSectInvariant: a loop that accesses lock-protected data but releases no lock leaves the section
+// bookkeeping (R|sect) either as it was on loop entry or at the current epoch
+func (fr *Frame) autoSectInvariant(li *loopInfo, pre *State) {
+	fx := fr.fx
+	hasSect, hasEpoch := false, false
+	for _, m := range fr.loopMods(li) {
+		if m.key == "R|sect" {
+			hasSect = true
+		}
+		if m.key == "R|epoch" {
+			hasEpoch = true
+		}
+	}
+	if !hasSect || hasEpoch {
+		return
+	}
+	fx.regComp("R|epoch", "(Array Int Int)")
+	fx.regComp("R|sect", "(Array Int Int)")
+	sect0 := pre.get(fx, "R|sect")
+	li.auto = append(li.auto, &Clause{Kind: "invariant", Tags: []string{"auto"}, Text: "auto: section bookkeeping advances only to the current critical section", Src: fr.pos(li.header.Instrs[0].Pos()),
+		Auto: func(fr *Frame, st *State) string {
+			q := fx.freshName("lk")
+			s1 := st.get(fx, "R|sect")
+			return fmt.Sprintf("(forall ((%s Int)) (! (or (= (select %s %s) (select %s %s)) (= (select %s %s) (select %s %s))) :pattern ((select %s %s))))", q, s1, q, sect0, q, s1, q, st.get(fx, "R|epoch"), q, s1, q)
+		}})
 }
 
 // autoInvariants: for counting loops (phi = [v0, phi + k], k > 0) the candidate invariant phi >= v0.
@@ -841,6 +872,10 @@ func (fr *Frame) instrMods(in ssa.Instruction, add func(string, bool), depth int
 		}
 		add("G|alloc", true)
 	case *ssa.MapUpdate:
+		if len(fx.E.S.Guards) > 0 {
+			fx.regComp("R|sect", "(Array Int Int)")
+			add("R|sect", false)
+		}
 		has, vals, _ := fx.mapComps(x.Map.Type())
 		add(has, false)
 		add("M|"+typeKey(x.Map.Type())+"|#len", false)
@@ -848,7 +883,7 @@ func (fr *Frame) instrMods(in ssa.Instruction, add func(string, bool), depth int
 			add(v, false)
 		}
 	case *ssa.MakeInterface:
-		if _, isPtr := x.X.Type().Underlying().(*types.Pointer); !isPtr {
+		if _, isPtr := x.X.Type().Underlying().(*types.Pointer); !isPtr && canonBox(x.X.Type()) == "" {
 			for _, k := range fr.typeComps("H|", boxType{x.X.Type()}.t(), "", x.X.Type()) {
 				_ = k
 			}
@@ -860,7 +895,27 @@ func (fr *Frame) instrMods(in ssa.Instruction, add func(string, bool), depth int
 			}
 			add("G|alloc", true)
 		}
+	case *ssa.UnOp:
+		if x.Op == token.MUL && len(fx.E.S.Guards) > 0 {
+			if _, root, path, ok := fr.addrComps(x.X); ok && root != nil {
+				for _, g := range fx.E.S.Guards {
+					if g.Root == rootKey(root) && (strings.HasPrefix(path, g.Field) || strings.HasPrefix(g.Field, path)) {
+						fx.regComp("R|sect", "(Array Int Int)")
+						add("R|sect", false)
+					}
+				}
+			}
+		}
+	case *ssa.Lookup:
+		if _, isMap := x.X.Type().Underlying().(*types.Map); isMap && len(fx.E.S.Guards) > 0 {
+			fx.regComp("R|sect", "(Array Int Int)")
+			add("R|sect", false)
+		}
 	case *ssa.Next:
+		if !x.IsString && len(fx.E.S.Guards) > 0 {
+			fx.regComp("R|sect", "(Array Int Int)")
+			add("R|sect", false)
+		}
 		if !x.IsString {
 			if r, ok := x.Iter.(*ssa.Range); ok {
 				key := fmt.Sprintf("R|%s|%d", fr.key, rangeOrdinal(r))
